@@ -697,7 +697,17 @@ class t2listing(object):
                 if exppos > 0:
                     endpos = exppos + 3
                     next_start = endpos + 1
-                else: raise Exception("Unable to parse table line:\n" + line)
+                else:
+                    # no 'E': look for a sign. It is either a 3-digit exponent with
+                    # the 'E' omitted (e.g. 0.12345-105), or the sign of the next number:
+                    from re import search, match
+                    sgn = search('[+-]', line[pstart: nextpt])
+                    if sgn:
+                        signpos = pstart + sgn.start()
+                        if match('[+-][0-9]{3}([+-.]|[0-9][.])', line[signpos:]):
+                            next_start = signpos + 4
+                        else: next_start = signpos
+                    else: raise Exception("Unable to parse table line:\n" + line)
             numpos.append(next_start)
         numpos.append(len(line))
         return numpos
